@@ -55,6 +55,17 @@ impl Fixture {
 
 /// Execute one operation with identical inputs; return its fresh values (kind, bytes).
 fn exec(fx: &Fixture, op: Op) -> Result<Vec<(String, Vec<u8>)>, String> {
+    exec_env(fx, op, &[])
+}
+
+/// The same, with extra environment variables for the CLI operations (the RNG shim's controls).
+fn exec_env(fx: &Fixture, op: Op, extra: &[(String, String)]) -> Result<Vec<(String, Vec<u8>)>, String> {
+    let with = |mut c: Cmd| -> Cmd {
+        for (k, v) in extra {
+            c = c.env(k, v);
+        }
+        c
+    };
     let key_file_values = |file: &[u8], who: &str| -> Result<Vec<(String, Vec<u8>)>, String> {
         let k = r::read_key_file(&fx.bob.sk, file).map_err(|e| format!("{} output is not a conforming file: {:?}", who, e))?;
         Ok(vec![(format!("{} ephemeral key", who), k.e_pub.to_vec()), (format!("{} payload key", who), k.payload_key.to_vec()), (format!("{} file key", who), k.file_key.to_vec())])
@@ -76,7 +87,7 @@ fn exec(fx: &Fixture, op: Op) -> Result<Vec<(String, Vec<u8>)>, String> {
             let sc = Scratch::new();
             sc.write("kr.txt", fx.keyring.as_bytes());
             sc.write("plain.bin", &fx.plain);
-            let out = proc::run(&Cmd::new(&["encrypt", "plain.bin", "-t", "bob", "-f", "alice", "-k", "kr.txt", "-o", "out.ktl", "--env-pass"]).env("KESTREL_PASSWORD", "alicepw"), &sc.0);
+            let out = proc::run(&with(Cmd::new(&["encrypt", "plain.bin", "-t", "bob", "-f", "alice", "-k", "kr.txt", "-o", "out.ktl", "--env-pass"]).env("KESTREL_PASSWORD", "alicepw")), &sc.0);
             if !out.ok() {
                 return Err(format!("kestrel encrypt failed: {}", out.summary()));
             }
@@ -85,7 +96,7 @@ fn exec(fx: &Fixture, op: Op) -> Result<Vec<(String, Vec<u8>)>, String> {
         Op::CliPassEncrypt => {
             let sc = Scratch::new();
             sc.write("plain.bin", &fx.plain);
-            let out = proc::run(&Cmd::new(&["password", "encrypt", "plain.bin", "-o", "out.ktl", "--env-pass"]).env("KESTREL_PASSWORD", "same password"), &sc.0);
+            let out = proc::run(&with(Cmd::new(&["password", "encrypt", "plain.bin", "-o", "out.ktl", "--env-pass"]).env("KESTREL_PASSWORD", "same password")), &sc.0);
             if !out.ok() {
                 return Err(format!("kestrel password encrypt failed: {}", out.summary()));
             }
@@ -97,7 +108,7 @@ fn exec(fx: &Fixture, op: Op) -> Result<Vec<(String, Vec<u8>)>, String> {
         }
         Op::CliKeyGenerate => {
             let sc = Scratch::new();
-            let out = proc::run(&Cmd::new(&["key", "generate", "-o", "new.txt", "--env-pass"]).env("KESTREL_PASSWORD", "genpw").stdin(b"newkey\n"), &sc.0);
+            let out = proc::run(&with(Cmd::new(&["key", "generate", "-o", "new.txt", "--env-pass"]).env("KESTREL_PASSWORD", "genpw").stdin(b"newkey\n")), &sc.0);
             if !out.ok() {
                 return Err(format!("kestrel key generate failed: {}", out.summary()));
             }
@@ -110,7 +121,7 @@ fn exec(fx: &Fixture, op: Op) -> Result<Vec<(String, Vec<u8>)>, String> {
         Op::CliChangePass | Op::CliChangePassSame => {
             let sc = Scratch::new();
             let newpw = if op == Op::CliChangePass { "alicenew" } else { "alicepw" };
-            let out = proc::run(&Cmd::new(&["key", "change-pass", &fx.alice.locked, "--env-pass"]).env("KESTREL_PASSWORD", "alicepw").env("KESTREL_NEW_PASSWORD", newpw), &sc.0);
+            let out = proc::run(&with(Cmd::new(&["key", "change-pass", &fx.alice.locked, "--env-pass"]).env("KESTREL_PASSWORD", "alicepw").env("KESTREL_NEW_PASSWORD", newpw)), &sc.0);
             if !out.ok() {
                 return Err(format!("kestrel key change-pass failed: {}", out.summary()));
             }
@@ -233,6 +244,111 @@ fn with_seam<T>(seed: u64, flip: Option<usize>, f: impl FnOnce() -> T) -> (T, us
     let r = f();
     kestrel_crypto::verif::set_rng(None);
     (r, pos.get())
+}
+
+pub const RNG_SHIM: &str = "/verif/harness/target/release/librngshim.so";
+
+/// Environment answers of the OS randomness source, decided by the LD_PRELOAD shim (harness/rngshim).
+pub fn rng_env(mode: &str, k: usize, log: Option<&str>) -> Vec<(String, String)> {
+    let mut v = vec![("LD_PRELOAD".to_string(), RNG_SHIM.to_string()), ("KV_RNG_MODE".to_string(), mode.to_string()), ("KV_RNG_K".to_string(), k.to_string())];
+    if let Some(l) = log {
+        v.push(("KV_RNG_LOG".to_string(), l.to_string()));
+    }
+    v
+}
+
+/// All answers of getrandom(2) within the bound: for every call index k of the run (learned by a counting run),
+/// {persistent failure from call k on, EINTR at k, EAGAIN at k, a 1-byte short answer at k}, plus 1-byte answers throughout.
+pub fn rng_schedules(ncalls: usize) -> Vec<(String, usize)> {
+    let mut v = vec![("short".to_string(), 0)];
+    for k in 1..=ncalls {
+        for m in ["fail-from", "eintr-at", "eagain-at", "short-at"] {
+            v.push((m.to_string(), k));
+        }
+    }
+    v
+}
+
+/// How many getrandom calls (len > 0) one run of the operation makes.
+pub fn rng_calls(run: impl Fn(&[(String, String)]) -> bool) -> Option<usize> {
+    let sc = Scratch::new();
+    let log = format!("{}/rng.log", sc.0.display());
+    if !run(&rng_env("count", 0, Some(&log))) {
+        return None;
+    }
+    Some(std::fs::metadata(&log).map(|m| m.len() as usize).unwrap_or(0))
+}
+
+/// Every CLI operation that draws randomness, under every answer of the randomness source within the bound, twice:
+/// whatever is produced with exit 0 must still consist of fresh values (pairwise distinct across both runs, and
+/// distinct from the given values, which include the all-zero string). A refused operation produces nothing to compare.
+fn rng_fault_sweep(rep: &Report, fx: &Fixture) {
+    if !std::path::Path::new(RNG_SHIM).exists() {
+        rep.violation("rngfault/machinery", json!({"kind":"rngfault"}), format!("MACHINERY: {} not built", RNG_SHIM));
+        return;
+    }
+    let ops = [Op::CliEncrypt, Op::CliPassEncrypt, Op::CliKeyGenerate, Op::CliChangePass];
+    let mut table = vec![];
+    for op in ops {
+        let n = match rng_calls(|env| exec_env(fx, op, env).is_ok()) {
+            Some(n) if n >= 1 => n,
+            other => {
+                rep.violation("rngfault/shim-not-effective", json!({"kind":"rngfault","op":format!("{:?}", op)}), format!("MACHINERY: counting run of {:?} under the shim saw {:?} getrandom calls", op, other));
+                continue;
+            }
+        };
+        let scheds = rng_schedules(n);
+        let results: Vec<(String, usize, Result<usize, String>, bool)> = scheds
+            .par_iter()
+            .map(|(mode, k)| {
+                let env = rng_env(mode, *k, None);
+                let a = exec_env(fx, op, &env);
+                let b = exec_env(fx, op, &env);
+                let refused = a.is_err() && b.is_err();
+                let mut vals: Vec<(String, Vec<u8>)> = vec![];
+                for (tag, r) in [("run1", &a), ("run2", &b)] {
+                    if let Ok(v) = r {
+                        for (kname, val) in v {
+                            vals.push((format!("{} {}", tag, kname), val.clone()));
+                        }
+                    }
+                }
+                let mut verdict = Ok(vals.len());
+                'o: for i in 0..vals.len() {
+                    for j in 0..i {
+                        if vals[i].1 == vals[j].1 {
+                            verdict = Err(format!("[{}] == [{}] = {}", vals[j].0, vals[i].0, hx(&vals[i].1)));
+                            break 'o;
+                        }
+                    }
+                    for (gn, gv) in &fx.given {
+                        if &vals[i].1 == gv {
+                            verdict = Err(format!("[{}] equals the given value [{}]", vals[i].0, gn));
+                            break 'o;
+                        }
+                    }
+                }
+                (mode.clone(), *k, verdict, refused)
+            })
+            .collect();
+        let mut refused_n = 0;
+        for (mode, k, verdict, refused) in results {
+            rep.eval(1);
+            rep.nontrivial(format!("rngfault-{:?}-{}-{}", op, mode, k).as_bytes());
+            if refused {
+                refused_n += 1;
+            }
+            if let Err(m) = verdict {
+                rep.violation(
+                    &format!("rngfault/{:?}", op),
+                    json!({"kind":"rngfault","op":format!("{:?}", op),"mode":mode,"k":k}),
+                    format!("{:?} run twice while getrandom answers '{}' at call {}: exit 0 but the output is not fresh: {}", op, mode, k, m),
+                );
+            }
+        }
+        table.push(json!({"op":format!("{:?}", op),"getrandom_calls":n,"schedules":scheds.len(),"refused_by_the_tool":refused_n}));
+    }
+    rep.extra("rng_fault_sweep", json!(table));
 }
 
 fn seam_check(rep: &Report, fx: &Fixture) {
@@ -384,6 +500,7 @@ pub fn run(rep: &'static Report) {
     }
 
     seam_check(rep, &ctx.fx);
+    rng_fault_sweep(rep, &ctx.fx);
 
     // per file
     let key = derive32(seed, "c07-nonce-key");
@@ -481,6 +598,7 @@ pub fn replay(rep: &'static Report, case: &Value) {
             }
         }
         "seam" => seam_check(rep, &Fixture::new(rep.seed)),
+        "rngfault" => rng_fault_sweep(rep, &Fixture::new(rep.seed)),
         "repetition" => {
             println!("  re-running C07 (the repetition part is deterministic in its verdict)");
             run(rep);
